@@ -85,7 +85,9 @@ fn build_root(cw20: bool, fee: Fee3) -> RootCase {
     direct_loan(&mut w, &h, &fee, 400_000, &[Step::Repay(RepayKind::Exact)]).expect("pre loan");
     // the adversary owns vault shares it can withdraw inside a callback
     let msgs = compile(&h, &fee, 0, &[Step::Deposit(5000)]);
-    w.exec(MALLORY, &h.adversary, &AdvMsg::Forward { msgs }, &[]).expect("adversary deposit");
+    // (tolerated if it fails: the scripts that withdraw shares then simply revert; a vault that refuses deposits after a
+    // completed loan is caught by loan.counter_back_to_zero on the first case)
+    let _ = w.exec(MALLORY, &h.adversary, &AdvMsg::Forward { msgs }, &[]);
     RootCase { cw20, fee, h, snap: w.snapshot() }
 }
 
@@ -299,6 +301,24 @@ pub fn run(tier: &str, seed: u64) -> i32 {
         for a in &amounts {
             for s in &all {
                 cases.push(Case { root: ri, amount: *a, script: s.clone() });
+            }
+        }
+    }
+    if quick {
+        // loans that charge no fee at all (every share floors to zero on a dust amount; the all-zero fee triple):
+        // short scripts only, the full product is the thorough tier's
+        let short = scripts(1, 1, &[1000]);
+        for (ri, _) in roots.iter().enumerate() {
+            for s in &short {
+                cases.push(Case { root: ri, amount: 1, script: s.clone() });
+            }
+        }
+        for cw20 in [false, true] {
+            roots.push(build_root(cw20, FEES[1]));
+            for a in [1u128, 1000] {
+                for s in &short {
+                    cases.push(Case { root: roots.len() - 1, amount: a, script: s.clone() });
+                }
             }
         }
     }
